@@ -174,6 +174,12 @@ func ZZ_C19_canaryCmds() {
 	hasCanary := before.Status.Canary != nil
 	hasStrategy := before.Spec.Strategy.Canary != nil
 	cmd := nondet.String("cmd", "pause", "unpause", "validate", "fail")
+	// the command may race with the end of the canary duration: the canary replica set is already older
+	// than the duration but no reconcile has promoted it yet (pause and fail must still win)
+	if (cmd == "pause" || cmd == "fail") && state == "canary" && nondet.Bool("canaryDurationAlreadyElapsed") {
+		c.ERS[1].CreationTimestamp = metav1.NewTime(nondet.Base().Add(-2 * time.Hour))
+		rsBefore = c.ERS[1].DeepCopy()
+	}
 	var err error
 	switch cmd {
 	case "pause":
